@@ -72,6 +72,9 @@ pub fn check_reply(kv: &Kv, op: u32, rp: &[u8]) -> Option<(String, String)> {
     let ans = ks(kv, "ans");
     let body = &rp[16..];
     let bad = |t: &str, d: String| Some((t.to_string(), d));
+    if op == 26 {
+        return check_init(kv, rp);
+    }
     // errors
     if ans == "err" {
         let e = kn(kv, "errno") as u32 as i32;
@@ -181,6 +184,71 @@ pub fn check_reply(kv: &Kv, op: u32, rp: &[u8]) -> Option<(String, String)> {
         (_, "unit") => (!body.is_empty() && op != 26).then(|| ("unit".to_string(), format!("{} unexpected body bytes", body.len()))),
         _ => None,
     }
+}
+
+/// INIT (C12): the reply enables exactly capable ∩ want, extended bits only with the marker,
+/// laid out for the client's minor, major mismatch handled as the protocol prescribes
+fn check_init(kv: &Kv, rp: &[u8]) -> Option<(String, String)> {
+    const KNOWN: u64 = 0x1fff_ffff | 0x4000_0000 | 0x2_0000_0000 | (1 << 39) | (1 << 63);
+    const INIT_EXT: u64 = 0x4000_0000;
+    let req = unhex(ks(kv, "req"));
+    if req.len() < 56 {
+        return None;
+    }
+    let (major, minor, ra, flags) = (le32(&req, 40), le32(&req, 44), le32(&req, 48), le32(&req, 52));
+    let err = le32(rp, 4) as u32 as i32;
+    let body = &rp[16..];
+    let bad = |t: &str, d: String| Some((format!("init:{}", t), d));
+    if major < 7 {
+        return if err != -libc::EPROTO { bad("major-low", format!("major {} answered with error {}", major, err)) } else { None };
+    }
+    if major > 7 {
+        if err != 0 || body.len() != 64 || le32(body, 0) != 7 || le32(body, 4) != 33 || body[8..].iter().any(|&b| b != 0) {
+            return bad("major-high", "a newer major must be answered with a bare 7.33 reply".into());
+        }
+        return None;
+    }
+    if ks(kv, "ans") != "want" || err != 0 {
+        return None;
+    }
+    let mut cap = flags;
+    if flags & INIT_EXT != 0 {
+        if req.len() >= 56 + 48 { cap |= le32(&req, 56) << 32 } else { cap &= !INIT_EXT }
+    }
+    let enabled = cap & KNOWN & kn(kv, "want");
+    let want_size = if minor < 5 { 8 } else if minor < 23 { 24 } else { 64 };
+    if body.len() != want_size {
+        return bad("size", format!("minor {} answered with a {}-byte body, expected {}", minor, body.len(), want_size));
+    }
+    if le32(body, 0) != 7 {
+        return bad("major", "reply major is not 7".into());
+    }
+    if want_size >= 24 {
+        let f = le32(body, 12);
+        if f & !INIT_EXT != (enabled & 0xffff_ffff) & !INIT_EXT {
+            return bad("flags", format!("flags {:#x} but capable&want = {:#x}", f, enabled & 0xffff_ffff));
+        }
+        if le32(body, 8) != ra {
+            return bad("readahead", "max_readahead not echoed".into());
+        }
+        let mw = le32(body, 20);
+        if mw + 4096 > (1 << 20) + 4096 || mw == 0 {
+            return bad("max_write", format!("max_write {} does not fit the request buffer limit", mw));
+        }
+        if want_size == 64 {
+            let f2 = le32(body, 32);
+            if f2 != enabled >> 32 {
+                return bad("flags2", format!("flags2 {:#x} but capable&want high = {:#x}", f2, enabled >> 32));
+            }
+            if f2 != 0 && f & INIT_EXT == 0 {
+                return bad("marker", "extended bits enabled without the INIT_EXT marker".into());
+            }
+        }
+        if f & INIT_EXT != 0 && cap & INIT_EXT == 0 {
+            return bad("marker-unoffered", "INIT_EXT enabled although the client did not offer it".into());
+        }
+    }
+    None
 }
 
 /// the kernel's walk over a READDIR(PLUS) payload: whole 8-aligned records, within `size`,
